@@ -78,7 +78,7 @@ var vTokens = []string{"0", "1", "-1", "+5", "007", "0x10", "1e3", "1.5", "-0", 
 	"١", "１", "０", "1e", "e1", ".", "-", "+", "--1", "1__0", "_1", "1_", "0_1", "0.1e-1", "1E5", "3.0", "-0.0", "+0", "\x00", "\xff\xfe", "a,b", ",", "1,", ",1", "=", "-x", "--", strings.Repeat("9", 300), strings.Repeat("1", 40) + ".5",
 	"000000000000000000042", "+00000000000000000000007", "-000000000000000000000", "0000000000000000000000.50", "08", "09", "010", "0100", "$HOME", "$1", "a$b", "${x}", "100%", "%d", "caf\xe9.txt",
 	// tokens that are complete Go literals: bound byte for byte, never unquoted
-	"\"quoted\"", "\"a\\tb\"", "`raw`", "'x'", "\"\"", "\"1\"", "2147483648", "-2147483649", "4294967296", "1700000000000", "3.4e39", "1e39", "16777217"}
+	"\\d+", "\\\\server\\share", "\\", "\\5", "\"quoted\"", "\"a\\tb\"", "`raw`", "'x'", "\"\"", "\"1\"", "2147483648", "-2147483649", "4294967296", "1700000000000", "3.4e39", "1e39", "16777217"}
 
 // mostly valid tokens (C06)
 var vPlain = map[vkind][]string{
@@ -260,7 +260,7 @@ func (v *vcase) run() (o vobs) {
 	}
 	app := cli.App("app", "")
 	app.ErrorHandling = flag.ContinueOnError
-	env := strings.Join(v.envName, " ")
+	env := strings.Join(v.envName, []string{" ", " ", "  ", "\t", "\n", " \t "}[v.formSalt%6]) // "space separated": any run of white space
 	name := "x xx"
 	if v.asArg {
 		name = "X"
@@ -505,6 +505,8 @@ func genValueCase(r *rand.Rand, wide bool) *vcase {
 				val = strings.Join(ps, ",")
 				if r.Intn(10) == 0 {
 					val = tok() + ":" + tok() // a colon is no list separator
+				} else if r.Intn(12) == 0 {
+					val = "[" + val + "]" // brackets are characters like any other
 				}
 			} else {
 				val = tok()
